@@ -26,6 +26,12 @@ func Assert(c bool, label string)
 func Reach(label string)
 func Note(s string)
 
+// Try runs f; Kill (symbolic run only) ends the invocation running inside the innermost Try
+// like kill -9 would: no deferred function of the code under test runs, its goroutines are
+// dropped, and Try returns true.
+func Try(f func()) bool
+func Kill()
+
 // Param returns a harness parameter (a bound) set by the check registry.
 func Param(name string, def int) int
 
